@@ -80,6 +80,9 @@ func init() {
 			ex.H.Reached[ex.concStr(args[0], "verifReach")] = true
 			return nil
 		},
+		"verifContains": func(ex *Exec, fn *ssa.Function, args []Value) Value {
+			return StrContains(args[0].(*Term), args[1].(*Term))
+		},
 		"verifAnd": func(ex *Exec, fn *ssa.Function, args []Value) Value {
 			return And(args[0].(*Term), args[1].(*Term))
 		},
